@@ -90,9 +90,9 @@ def link_value(rng, t):
 # write cases
 
 
-def write_case(op, args, ks, meta):
-    lines = ["io.write.%s\t%s\t%d" % (op, "\t".join(args), k) for k in ks]
-    lines.append("io.write.%s\t%s\t%d" % (op, "\t".join(args), BIG))
+def write_case(op, args, ks, meta, prefix="io.write."):
+    lines = ["%s%s\t%s\t%d" % (prefix, op, "\t".join(args), k) for k in ks]
+    lines.append("%s%s\t%s\t%d" % (prefix, op, "\t".join(args), BIG))
     m = {"kind": "write", "op": op, "ks": list(ks) + [BIG]}
     m.update(meta)
     return Case(lines, m)
@@ -167,7 +167,7 @@ def exts_ref(vals, order):
 
 
 def gen_write_cases(rng, tier):
-    nval = 50 if tier == "quick" else 600
+    nval = 60 if tier == "quick" else 600
     # link / transport types of the C08 link half: one write_all (TCP: two)
     for name in ("eth2", "vlan", "sll", "macsec", "arp", "udp", "tcp", "icmpv4", "icmpv6"):
         t = L.BY_NAME[name]
@@ -578,12 +578,91 @@ def oracle_limited(c, out):
 
 
 def gen_build_cases(rng, tier):
-    return
-    yield
+    nval = 12 if tier == "quick" else 120
+    arp_t = L.BY_NAME["arp"]
+    for i in range(nval):
+        for path in ("e4u", "ev6u", "4t", "edd4i", "6i6", "e4i6", "earp"):
+            n = rng.choice([0, 1, 2, 3, 7, 8, rng.randrange(0, 40)])
+            payload = rbytes(rng, n)
+            mac = lambda: hx(L.eb(rng, 6))
+            ip4 = lambda: hx(L.eb(rng, 4))
+            ip6 = lambda: hx(L.eb(rng, 16))
+            u16 = lambda: str(L.ev(rng, 0xFFFF))
+            vid = lambda: str(L.ev(rng, 4095))
+            final = "ok"
+            if path == "e4u":
+                args, total = [mac(), mac(), ip4(), ip4(), str(L.ev(rng, 255)), u16(), u16()], 14 + 20 + 8 + n
+                marks = (14, 34, 42)
+            elif path == "ev6u":
+                args, total = [mac(), mac(), vid(), ip6(), ip6(), str(L.ev(rng, 255)), u16(), u16()], 14 + 4 + 40 + 8 + n
+                marks = (14, 18, 58, 66)
+            elif path == "4t":
+                args, total = [ip4(), ip4(), str(L.ev(rng, 255)), u16(), u16(), str(L.ev(rng, 0xFFFFFFFF)), u16()], 20 + 20 + n
+                marks = (20, 40)
+            elif path == "edd4i":
+                args, total = [mac(), mac(), vid(), vid(), ip4(), ip4(), str(L.ev(rng, 255)), u16(), u16()], 14 + 8 + 20 + 8 + n
+                marks = (14, 18, 22, 42, 50)
+            elif path == "6i6":
+                args, total = [ip6(), ip6(), str(L.ev(rng, 255)), u16(), u16()], 40 + 8 + n
+                marks = (40, 48)
+            elif path == "e4i6":
+                args, total = [mac(), mac(), ip4(), ip4(), str(L.ev(rng, 255)), u16(), u16()], 14 + 20
+                final = "err(icmpv6inipv4)"
+                marks = (14, 34)
+            else:
+                v = link_value(rng, arp_t)
+                while arp_t.hlen(v) > 100:
+                    v = link_value(rng, arp_t)
+                payload = b""
+                n = 0
+                args, total = [mac(), mac()] + arp_t.args(v), 14 + arp_t.hlen(v)
+                marks = (14,)
+            full_args = [path] + args + [hx(payload)]
+            yield write_case("write", full_args, ks_for(rng, total, marks), {"len": total, "final": final, "path": path}, prefix="io.build.")
+            required = total if path != "e4i6" else 14 + 20 + 8 + n
+            caps = list(range(0, required + 2)) + [required + 9, required + 64]
+            lines = ["io.build.wslice\t%s\t%d" % ("\t".join(full_args), cap) for cap in caps]
+            lines.append("io.build.write\t%s\t%d" % ("\t".join(full_args), BIG))
+            yield Case(lines, {"kind": "bslice", "op": "build", "path": path, "caps": caps, "len": total, "required": required, "final": final})
+
+
+_BOK = re.compile(r"^ok\(n=(\d+)\)$")
 
 
 def oracle_build_slice(c, out):
-    pass
+    m = _W.match(c.impl[-1] or "")
+    if not m or m.group(1) != c.meta["final"]:
+        out.append(("bslice-reference-write", {"impl": c.impl[-1]}))
+        return
+    full = unhex(m.group(2))
+    n, required, final = c.meta["len"], c.meta["required"], c.meta["final"]
+    if len(full) != n:
+        out.append(("bslice-complete-length", {"got": len(full), "want": n}))
+        return
+    for cap, o in zip(c.meta["caps"], c.impl):
+        m = _S.match(o or "")
+        if not m:
+            out.append(("bslice-no-panic", {"cap": cap, "impl": o}))
+            return
+        res, buf, canary = m.group(1), unhex(m.group(2)), m.group(3)
+        if canary != "intact" or len(buf) != cap:
+            out.append(("bslice-canary", {"cap": cap, "impl": o}))
+            return
+        if cap < required:
+            if res != "err(space(%d))" % required:
+                out.append(("bslice-required-length", {"cap": cap, "got": res, "want_required": required}))
+                return
+            if buf != bytes([FILL]) * cap:
+                out.append(("bslice-partial-garbage", {"cap": cap, "buf": hx(buf)}))
+                return
+        else:
+            want = "ok(n=%d)" % required if final == "ok" else final
+            if res != want:
+                out.append(("bslice-result", {"cap": cap, "got": res, "want": want}))
+                return
+            if buf != full + bytes([FILL]) * (cap - n):
+                out.append(("bslice-content", {"cap": cap, "buf": hx(buf), "complete": hx(full)}))
+                return
 
 
 # ----------------------------------------------------------------------------------------------
